@@ -87,9 +87,13 @@ class JSExec(GoExec, SpecMixin, CallsMixin):
     def num(self, n):
         if self.mode == 'bv':
             return z3.BitVecVal(n, 64)
+        if self.mode == 'fp':
+            return z3.FPVal(float(n), F64)
         return z3.IntVal(n)
 
     def exact(self, st, v, line):
+        if self.mode == 'fp':
+            return v            # IEEE arithmetic is modelled exactly in the floating-point theory
         if self.mode == 'bv':
             self.oblige(st, 'exact@%s' % line, z3.And(v >= z3.BitVecVal(-TWO53, 64), v <= z3.BitVecVal(TWO53, 64)), src=line)
         else:
@@ -99,7 +103,18 @@ class JSExec(GoExec, SpecMixin, CallsMixin):
     def trunc_real(self, v):
         return z3.If(v >= 0, z3.ToInt(v), -z3.ToInt(-v))
 
+    def fp_toint(self, v, signed):
+        """ToInt32 / ToUint32 of a double (mode fp): truncation modulo 2^32 for |v| < 2^63, 0 for NaN and infinities"""
+        big = z3.fpToSBV(z3.RTZ(), v, z3.BitVecSort(64))
+        low = z3.Extract(31, 0, big)
+        fin = z3.And(z3.Not(z3.fpIsNaN(v)), z3.Not(z3.fpIsInf(v)))
+        r = z3.fpSignedToFP(z3.RNE(), low, F64) if signed else z3.fpUnsignedToFP(z3.RNE(), low, F64)
+        self.fp_range_needed = True
+        return z3.If(fin, r, z3.FPVal(0.0, F64))
+
     def toint32(self, v):
+        if isinstance(v, z3.ExprRef) and z3.is_fp(v):
+            return self.fp_toint(v, True)
         if isinstance(v, z3.ExprRef) and z3.is_real(v):
             v = self.trunc_real(v)
         if isinstance(v, MaybeNaN):
@@ -112,6 +127,8 @@ class JSExec(GoExec, SpecMixin, CallsMixin):
         return self.dm(v + TWO31, TWO32)[1] - TWO31
 
     def touint32(self, v):
+        if isinstance(v, z3.ExprRef) and z3.is_fp(v):
+            return self.fp_toint(v, False)
         if isinstance(v, z3.ExprRef) and z3.is_real(v):
             v = self.trunc_real(v)
         if isinstance(v, MaybeNaN):
@@ -248,6 +265,7 @@ class JSExec(GoExec, SpecMixin, CallsMixin):
         x = self.ev(st, e['argument'])
         if op == '!': return z3.Not(self.truthy(st, x))
         if op == '-':
+            if isinstance(x, z3.ExprRef) and z3.is_fp(x): return z3.fpNeg(x)
             return self.exact(st, -x, self.line(e))
         if op == '+': return x
         if op == '~':
@@ -290,7 +308,27 @@ class JSExec(GoExec, SpecMixin, CallsMixin):
                                             z3.Implies(y > 0, z3.And(t < y, t > -y)), z3.Implies(y < 0, z3.And(t < -y, t > y)))))
         return t
 
+    def binop_fp(self, st, op, a, b, line):
+        rm = z3.RNE()
+        if op in ('===', '=='): return z3.fpEQ(a, b)
+        if op in ('!==', '!='): return z3.Not(z3.fpEQ(a, b))
+        if op == '<': return z3.fpLT(a, b)
+        if op == '<=': return z3.fpLEQ(a, b)
+        if op == '>': return z3.fpGT(a, b)
+        if op == '>=': return z3.fpGEQ(a, b)
+        if op == '+': return z3.fpAdd(rm, a, b)
+        if op == '-': return z3.fpSub(rm, a, b)
+        if op == '*': return z3.fpMul(rm, a, b)
+        if op == '/': return z3.fpDiv(rm, a, b)
+        if op in ('>>', '|') and z3.is_fp_value(z3.simplify(b)):
+            return self.fp_toint(a, True)            # x >> 0, x | 0
+        if op == '>>>':
+            return self.fp_toint(a, False)
+        raise Unsupported('operator %s in mode fp @%s' % (op, line))
+
     def binop_js(self, st, op, a, b, line):
+        if self.mode == 'fp' and isinstance(a, z3.ExprRef) and isinstance(b, z3.ExprRef) and z3.is_fp(a) and z3.is_fp(b):
+            return self.binop_fp(st, op, a, b, line)
         if op in ('===', '!==') and isinstance(a, OptNum) and isinstance(b, JSUndef):
             return a.undef if op == '===' else z3.Not(a.undef)
         if op in ('===', '!==', '==', '!=') and isinstance(a, JSObj) and isinstance(b, JSFunc) and b.name.endswith('.nil') and '$nil' in a.fields:
@@ -686,6 +724,10 @@ class JSExec(GoExec, SpecMixin, CallsMixin):
             raise Unsupported('method call .%s on %r @%s' % (mname, obj, line))
         if c['type'] == 'Identifier':
             name = c['name']
+            if name == '$fround':
+                v = self.ev(st, args[0])
+                if not (isinstance(v, z3.ExprRef) and z3.is_fp(v)): raise Unsupported('$fround outside mode fp')
+                return z3.fpToFP(z3.RNE(), z3.fpToFP(z3.RNE(), v, F32), F64)
             if name == '$min':
                 return self.math(st, 'min', args, line)
             if name == '$imul':
